@@ -12,7 +12,7 @@ CATALOG = {
                  "prove liveness as a whole.",
         "note": "Partial: necessary conditions only. Trusted: the extractor and points-to engine; stdlib facts (Queue.put starts the feeder, "
                 "Thread.start runs run, Executor.map calls submit). Not decided: fairness/OS behaviour, worker death inside the shutdown phase, "
-                "user callbacks re-entering the API on the manager thread. Known finding D4 is listed in known_findings.json (D1-D3, D5, D7-D9 were repaired in /repo with fix: commits).",
+                "user callbacks re-entering the API on the manager thread. Known findings D4 (no respawn once the executor object was collected) and D13 (manager blocked in recv() when a worker dies in the middle of writing a large result) are listed in known_findings.json; D1-D3, D5-D12 were repaired in /repo with fix: commits.",
     },
     "C02": {
         "ref": "DESIGN.md section 4 C02",
@@ -23,8 +23,9 @@ CATALOG = {
                  "exit codes, clean pid+sentinel never a crash), that broken => flag, fail all, kill trees (children enumerated before the parent is "
                  "killed), join, that submit re-raises the stored error under the lock before mutating state, and that the exception classes are the "
                  "concurrent.futures ones. Crash points and schedules are covered because the rules are path properties, not runs.",
-        "note": "Partial: structural clauses only. Not decided: that the kernel reports sentinel readiness, detection latency, exit-code text, "
-                "the win32 arm. Trusted: extractor, points-to, stdlib semantics of multiprocessing.connection.wait.",
+        "note": "Partial: structural clauses only. Known finding D13 (a worker killed in the middle of writing a large result leaves the manager in a blocking "
+                "recv(): the death is never detected) is listed in known_findings.json. Not decided: that the kernel reports sentinel readiness, detection "
+                "latency, exit-code text, the win32 arm. Trusted: extractor, points-to, stdlib semantics of multiprocessing.connection.wait.",
     },
     "C05": {
         "ref": "DESIGN.md section 4 C05",
